@@ -24,6 +24,10 @@ pub struct XfrZoneUpdateIterator<'a, 'b> {
     iter: RecordIter<'b, Bytes, ZoneRecordData<Bytes, ParsedName<Bytes>>>,
 
     held_update: Option<ZoneUpdate<ParsedRecord>>,
+
+    /// True once [`IterationError::SingleSoaIxfrTcpRetrySignal`] has been
+    /// returned for the current response.
+    single_soa_signalled: bool,
 }
 
 impl<'a, 'b> XfrZoneUpdateIterator<'a, 'b> {
@@ -56,6 +60,7 @@ impl<'a, 'b> XfrZoneUpdateIterator<'a, 'b> {
             processor,
             iter,
             held_update: None,
+            single_soa_signalled: false,
         })
     }
 }
@@ -116,11 +121,19 @@ impl Iterator for XfrZoneUpdateIterator<'_, '_> {
                     //     with a single SOA record of the server's current
                     //     version to inform the client that a TCP query
                     //     should be initiated."
-                    if !self.processor.is_finished()
+                    //
+                    // Over TCP however a response may be spread over several
+                    // messages in any way, so a first message that holds
+                    // nothing but the initial SOA can be followed by the
+                    // rest of the transfer. Only the caller knows which of
+                    // the two it is, so signal the condition once but leave
+                    // the processor able to continue with the next message.
+                    if !self.single_soa_signalled
+                        && !self.processor.is_finished()
                         && self.processor.actual_xfr_type() == XfrType::Ixfr
                         && self.processor.rr_count() == 1
                     {
-                        self.processor.finish();
+                        self.single_soa_signalled = true;
                         return Some(Err(
                             IterationError::SingleSoaIxfrTcpRetrySignal,
                         ));
